@@ -503,7 +503,7 @@ func checkC19(rep *Report, rng *Rng, tier string) {
 	rep.Rule = "seeded histories over flushed, re-opened (nothing cached) and partially evicted stores with large and small values; every ReadAt issued during a key-only call (GetItem/MinItem/MaxItem/visits/iterators with withValue=false, Exist, Len, Set, Delete) is intersected with the byte ranges of all item values (known from the write log): the intersection must be empty; every successful NewStore must issue exactly Stat + the 24-byte trailer read + one read of the root record, whatever the file size; non-trivial = at least one re-open and 8 ops"
 	opens := 0
 	HistoryLoop(rep, rng, n, func(r *Rng, i int) (RunCfg, []Op, string) {
-		g := GenCfg{FileBacked: true, NColls: 1 + r.Intn(2), NOps: 30 + r.Intn(80), Structural: true, PrioMode: r.Intn(4), Visits: true, BigVals: true, NKeys: 6 + r.Intn(40)}
+		g := GenCfg{FileBacked: true, NColls: 1 + r.Intn(2), NOps: 30 + r.Intn(80), Structural: true, PrioMode: r.Intn(4), Visits: true, BigVals: true, NKeys: 6 + r.Intn(40), CmpMode: r.Intn(2)}
 		ops := GenHistory(r, g)
 		var out []Op
 		for _, o := range ops {
@@ -519,7 +519,7 @@ func checkC19(rep *Report, rng *Rng, tier string) {
 				opens++
 			}
 		}
-		d := CfgDesc{Check: "C19", FileBacked: true}
+		d := CfgDesc{Check: "C19", FileBacked: true, CmpCB: g.CmpMode == 1}
 		return d.RunCfg(), out, d.String()
 	}, nil)
 	rep.Extra["reopens_generated"] = opens
